@@ -19,6 +19,8 @@ two-part rebuild of the shared list must be a partition; _ChildrenList.remove mu
 id_precheck_complete (c05.intersection) and owners_compared_by_identity run under C11.
 Round 9: children_assignment_atomic (shared with C05) and refusals_compare_objects (the dependency guard must not decide by
 task id) run under C11; the owner field of the children facade may have any private name.
+Round 10: the publish callback of the children facade may have any private name; _ChildrenList.remove may be the hook of a
+template method in _TaskList.
 Not decided: a memoised all_children whose invalidation looks complete (UNDECIDED).
 """
 from __future__ import annotations
@@ -1213,7 +1215,13 @@ def removal_paths(ctx, o):
             if isinstance(n, ast.Delete) and any(isinstance(t, ast.Subscript) and match("self._list", t.value) for t in n.targets):
                 return n
         return None
-    f = prog.func('task._ChildrenList.remove')
+    f = prog.funcs.get('task._ChildrenList.remove')
+    if f is None:
+        # template method in the base class with a hook in the children list (`remove` -> `self._remove_existing(task)`)
+        base = prog.funcs.get('task._TaskList.remove')
+        hooks = [m for m in prog.cls('_ChildrenList').methods.values() if base is not None and
+                 any(isinstance(c.func, ast.Attribute) and unmangle(c.func.attr) == m.name for c in walk_no_nested(base.node) if isinstance(c, ast.Call))]
+        f = hooks[0] if len(hooks) == 1 else prog.func('task._ChildrenList.remove')
     cut = next((c for g in _closure(ctx, f) for c in [list_cut(g)] if c is not None), None)
     if cut is not None:
         # a path that takes the task out of the shared list itself: only the children assignment detaches what it drops
